@@ -1320,41 +1320,12 @@ fn parse_expression(
 
                 let rhs_expr = parse_expression(tokens, id_gen, diagnostics);
 
-                match rhs_expr.expr_ {
-                    Expression_::BinaryOperator(next_lhs, next_op, next_rhs) => {
-                        // Our recursive logic gives us right-associativity,
-                        // i.e. `x OP (y OP z)`, convert to `(x OP y) OP z`.
-
-                        let expr_pos = expr.position.clone();
-
-                        let new_inner = Expression::new(
-                            Position::merge(&expr_pos, &next_lhs.position),
-                            Expression_::BinaryOperator(
-                                Rc::new(expr),
-                                token_as_binary_op(&token).unwrap(),
-                                next_lhs,
-                            ),
-                            id_gen.next(),
-                        );
-
-                        expr = Expression::new(
-                            Position::merge(&expr_pos, &next_rhs.position),
-                            Expression_::BinaryOperator(Rc::new(new_inner), next_op, next_rhs),
-                            id_gen.next(),
-                        );
-                    }
-                    _ => {
-                        expr = Expression::new(
-                            Position::merge(&expr.position, &rhs_expr.position),
-                            Expression_::BinaryOperator(
-                                Rc::new(expr),
-                                token_as_binary_op(&token).unwrap(),
-                                Rc::new(rhs_expr),
-                            ),
-                            id_gen.next(),
-                        );
-                    }
-                }
+                expr = left_associate(
+                    expr,
+                    token_as_binary_op(&token).unwrap(),
+                    rhs_expr,
+                    id_gen,
+                );
             }
             _ => break,
         }
@@ -1365,6 +1336,37 @@ fn parse_expression(
     }
 
     expr
+}
+
+/// Build `lhs OP rhs`, keeping binary operators left-associative.
+///
+/// `rhs` has been parsed recursively, so it may itself be a chain of
+/// operators `y OP2 z OP3 w`, already grouped to the left. All
+/// operators have the same precedence, so `lhs OP y OP2 z OP3 w` must
+/// group as `((lhs OP y) OP2 z) OP3 w`: put `lhs OP` at the far left
+/// of `rhs`.
+fn left_associate(
+    lhs: Expression,
+    op: BinaryOperatorSymbol,
+    rhs: Expression,
+    id_gen: &mut IdGenerator,
+) -> Expression {
+    match rhs.expr_ {
+        Expression_::BinaryOperator(next_lhs, next_op, next_rhs) => {
+            let new_lhs = left_associate(lhs, op, Rc::unwrap_or_clone(next_lhs), id_gen);
+
+            Expression::new(
+                Position::merge(&new_lhs.position, &next_rhs.position),
+                Expression_::BinaryOperator(Rc::new(new_lhs), next_op, next_rhs),
+                id_gen.next(),
+            )
+        }
+        _ => Expression::new(
+            Position::merge(&lhs.position, &rhs.position),
+            Expression_::BinaryOperator(Rc::new(lhs), op, Rc::new(rhs)),
+            id_gen.next(),
+        ),
+    }
 }
 
 /// Parse an expression up to (but excluding) trailing syntax.
